@@ -125,7 +125,7 @@ type Case struct {
 	// recursive call on one chosen turn of the loop.
 	Container string `json:"container,omitempty"` // body | let | progn | dotimes | lambda-funcall | lambda-apply | walk
 	Layout    string `json:"layout,omitempty"`    // SM | SLM | LSM  (S side form, L log form, M main loop form)
-	Turn      string `json:"turn,omitempty"`      // first | second | last : the turn on which the side call is made
+	Turn      string `json:"turn,omitempty"`      // first | second | last | every : the turn(s) on which the side call is made
 	Target    string `json:"target,omitempty"`    // self | next : the function the side call calls
 	Main      string `json:"main,omitempty"`      // direct | funcall | apply : how the main tail call is made
 	// sequence family only: K separate loops of N turns each on one runtime,
@@ -601,7 +601,7 @@ func isSubsequence(a, b []string) bool {
 //
 //	(defun fK PARAMS  <container>[ S  [L]  M ])
 //
-//	S = (if (= n TURN) W1[..Wd[ (fT -100 SIDEACC) ]] ())   the side form: on one turn of the
+//	S = (if (= n TURN) W1[..Wd[ (fT -100 SIDEACC) ]] ())   the side form: on one turn of the loop -- or, Turn "every", on every turn (n > 0) -- a
 //	      loop a NON-last form ends, through the shape W, in a recursive call whose
 //	      activation (n < 0) goes straight to the base case and prints there
 //	L = (set 'g-log (cons n g-log))                        every activation logs itself
@@ -613,7 +613,7 @@ func isSubsequence(a, b []string) bool {
 
 var containers = []string{"body", "let", "progn", "dotimes", "lambda-funcall", "lambda-apply"}
 var layouts = []string{"SM", "SLM", "LSM"}
-var turns = []string{"first", "second", "last"}
+var turns = []string{"first", "second", "last", "every"}
 var mainCalls = []string{"direct", "funcall", "apply"}
 
 func sourceMulti(c Case) string {
@@ -641,6 +641,10 @@ func sourceMulti(c Case) string {
 			f = wrap(c, c.Shape[i], 11+i, k, loc, f)
 		}
 		S := fmt.Sprintf("(if (= n %d) %s ())", turn, f.String())
+		if c.Turn == "every" {
+			// a complete nested activation of a loop function on EVERY turn, before the tail call is issued
+			S = fmt.Sprintf("(if (> n 0) %s ())", f.String())
+		}
 		L := "(set 'g-log (cons n g-log))"
 		m := callForm(c, k, loc)
 		switch c.Main {
